@@ -119,6 +119,27 @@ def run_case(case):
                             "detail": {"x": r.x, "y": r.y, "d": r.d, "weights": {"vw": w.vw, "cw": w.cw, "ow": w.ow},
                                        "all_failures": fails}})
         break
+    if which == "Solver" and spec.m and not fails and case["gseed"][-1] % 3 == 0 and p.inner.policy == "fresh":
+        # parameter tracing: the caller changes data its constraint callback reads (the offsets of the rows), and solves
+        # again on the same solver object, warm-started at the solution just returned; the new result is judged against
+        # the problem as it is posed now
+        rng2 = rng_for("C01trace", *case["gseed"])
+        spec.e += 0.2 * rng2.normal(size=spec.m)          # (in place: both the user's problem and the oracle read it)
+        ctr["retraced_solves"] = 1
+        try:
+            r2 = out.solver.solve(np.array(r.x, dtype=float, copy=True), np.array(r.y, dtype=float, copy=True))
+        except Exception:
+            r2 = None
+        if r2 is not None and r2.status.name == "Optimal":
+            ctr["retraced_solves_optimal"] = 1
+            w2 = work.weights_of(out.solver, spec)
+            f2 = R.kkt_check(p.P, w2, np.asarray(r2.x, float), np.asarray(r2.y, float), np.asarray(r2.d, float),
+                             p.params.opt_tol, p.params.active_tol)
+            if f2:
+                res["viol"].append({"what": "after the row offsets were changed, the warm-started solve on the same solver "
+                                            "returned Optimal (%d iterations) but the KKT conditions of the problem as now "
+                                            "posed fail: %s" % (r2.iterations, f2[0]),
+                                    "key": dict(key, kind="retrace-" + f2[0].split(":")[0].split(" ")[0].split("[")[0])})
     if case["gseed"][-1] % 211 == 0:
         res["sample"] = {"spec": spec.summary(), "cfg": case["cfg"], "solver": which, "x": r.x, "y": r.y, "d": r.d,
                          "iterations": r.iterations}
@@ -135,7 +156,7 @@ def finalize(agg, tier):
                    "optimal_scaling_none": 12, "optimal_scaling_custom": 12, "optimal_scaling_GradJac": 12,
                    "optimal_scaling_Nominal": 12, "optimal_scaling_KKT": 12,
                    "optimal_rows_eq0": 12, "optimal_rows_eq": 12, "optimal_rows_ge": 12, "optimal_rows_le": 12,
-                   "optimal_rows_ranged": 12, "optimal_rows_freerow": 5, "optimal_badly_scaled_rows": 20, "optimal_vars_fixed": 12, "optimal_vars_boxed": 12,
+                   "optimal_rows_ranged": 12, "optimal_rows_freerow": 5, "optimal_badly_scaled_rows": 20, "retraced_solves_optimal": 15, "optimal_vars_fixed": 12, "optimal_vars_boxed": 12,
                    "optimal_with_active_bound_multiplier": 40, "optimal_with_row_multiplier": 40},
         "assumptions": ["tolerances: optimality tolerance times the exact power-of-two factor of the quantity, times "
                         "(1+1e-6), plus 1e-13 x magnitude for summation order; complementarity of rows additionally "
